@@ -350,7 +350,35 @@ def mixed_arg_strings():
 # repository samples and documentation examples
 
 def sample_texts():
+    """tests/samples/*.tex plus every LaTeX literal handed to TexSoup(...) in the README, the docs and the
+    package's own docstrings (the documentation's examples)"""
+    import re
     out = []
     for p in sorted(glob.glob(os.path.join(REPO, 'tests', 'samples', '*.tex'))):
         out.append((p, open(p, encoding='utf8').read()))
+    files = [os.path.join(REPO, 'README.md')] + sorted(glob.glob(os.path.join(REPO, 'docs', 'source', '*.rst'))) + \
+        sorted(glob.glob(os.path.join(REPO, 'TexSoup', '*.py')))
+    pat = re.compile(r"TexSoup\(\s*(r?)(\'\'\'|\"\"\"|\'|\")(.*?)\2", re.S)
+    seen = set()
+    for f in files:
+        try:
+            text = open(f, encoding='utf8').read()
+        except OSError:
+            continue
+        for m in pat.finditer(text):
+            body = m.group(3)
+            if 'Traceback' in text[m.end():m.end() + 400].split('>>>')[0]:
+                continue        # the documentation shows this example failing on purpose
+            if text[m.end():m.end() + 20].lstrip()[:1] == ',':
+                continue        # parsed with options (tolerance=..., skip_envs=...): not a plain well-formed document
+            # doctest continuation prompts inside multi-line literals
+            body = re.sub(r'\n\s*(\.\.\.|>>>) ?', '\n', body)
+            if not m.group(1):
+                try:
+                    body = body.encode('utf8').decode('unicode_escape')
+                except Exception:
+                    continue
+            if body and body not in seen and len(body) < 3000:
+                seen.add(body)
+                out.append(('%s#%d' % (os.path.relpath(f, REPO), len(out)), body))
     return out
